@@ -11,7 +11,7 @@ Clauses are the sentences of the property statement.
 """
 import z3
 
-from driver import Property, Task
+from driver import Bounded, Property, Task
 from pyvc.core import And, Eq, Implies, Not, Or, SBool, SStr
 from pyvc.interp import Config, Obj, PyRaise
 
@@ -187,37 +187,26 @@ def replay_case(task, vc):
 
 def violates(rp, obs):
     """Does the observation on the real code violate the clause named in the replay file?"""
+    from native.c16_oracle import violates_clause
     c = rp["native_case"]
-    ob = rp["obligation"].split(".", 1)[1] if "." in rp["obligation"] else rp["obligation"]
-    ob = rp["obligation"]
-    st, ms, kd, roe = c.get("status"), c.get("msg_status"), c.get("kind"), c.get("raise_on_err")
-    raised = obs["kind"] == "raise"
-    new = obs["kind"] == "ret" and obs["val"] is not None
-    none = obs["kind"] == "ret" and obs["val"] is None
-    if ob.endswith(".closed"):
-        return (raised and "FIXError" not in obs["mro"]) or (new and not obs.get("same_obj"))
-    if ob.endswith("raise_mode"):
-        return raised and not roe
-    if ob.endswith("finished_absorbing"):
-        return st in FIN and new and obs["val"] != st
-    if ob.endswith("no_back_created"):
-        return kd in ("8", "9") and new and obs["val"] == CREATED
-    if ob.endswith("no_back_pending_new"):
-        return kd in ("8", "9") and new and obs["val"] == PENDING_NEW and st not in (CREATED, PENDING_NEW)
-    if ob.endswith("created_row"):
-        return st == CREATED and new and obs["val"] not in (PENDING_NEW, REJECTED)
-    if ob.endswith("request_gate.permitted"):
-        return kd in ("F", "G") and st in PERMIT and not new
-    if ob.endswith("request_gate.pending_ignored"):
-        return kd in ("F", "G") and st in PENDING and not none
-    if ob.endswith("request_gate.refused"):
-        return kd in ("F", "G") and st not in PERMIT + PENDING and (new or (roe and not raised) or (not roe and not none))
-    if ob.endswith(".agrees"):
-        op = c["op"]
-        want = st in (FIN if op == "is_finished" else PERMIT)
-        return obs["kind"] != "ret" or (obs["val"] == "True") != want
-    return False
+    if c.get("op") == "sequence":
+        last = c["calls"][-1]
+        return any(violates_clause(n, last, obs) for n in rp.get("clauses", []))
+    return violates_clause(rp["obligation"], c, obs)
 
+
+def _known_inputs(v):
+    c = v["last_call"]
+    return {"status": c["status"], "msg_status": c["msg_status"], "kind": c["kind"], "exec_type": c["exec_type"],
+            "raise_on_err": c["raise_on_err"]}
+
+
+FALLBACK = Bounded(
+    "domain_sweep_two_calls", "c16_sweep", {}, {},
+    "exhaustive: 15 statuses x 6 message kinds x (17 ExecTypes + omitted marker) x 15 reported statuses x both error "
+    "modes, every point asked twice (both orders of the error mode) within one interpreter; bound: call sequences of "
+    "length 2 on the same point",
+    only_when_undecided=True, known_inputs=_known_inputs)
 
 PROPERTY = Property(
     "C16", TASKS,
@@ -232,6 +221,7 @@ PROPERTY = Property(
     ],
     trusted_base=["pyvc (this repository's VC generator)", "z3 5.1.0", "CPython semantics of dict/enum as modelled in vfy/pyvc/models.py"],
     functions=FUNCS,
+    bounded=[FALLBACK],
     notes="change_status is loop-free; the symbolic inputs range over the full finite domain of the statement "
           "(15 statuses x all message kinds incl. arbitrary strings x 17 ExecTypes + omitted marker 0 x 15 reported "
           "statuses x both error modes, members and string spellings), so the proof is complete, not bounded.",
